@@ -15,8 +15,8 @@ from esim.simfile import SimFile
 from . import base
 
 ID = "C01"
-QUICK_RUNS = 5000
-THOROUGH_RUNS = 300000
+QUICK_RUNS = 15000
+THOROUGH_RUNS = 600000
 LEVEL = "exploration"
 RULE = ("one run = one generated logging program (all API styles, exits ok/raise for 12 exception "
         "classes, JSON-native field values) executed in a SEQ/THREADS/ASYNC world under a seeded "
